@@ -320,6 +320,10 @@ def gen_value(rng, s, lens, pos, mode):
         return ("l", items)
     if k == "rest":
         n = rng.range(0, 3)
+        # now and then a long tail: the CPI scratch arrays of dynamic-length sets have size classes (cpi.rs HandleCpiArray,
+        # up to the runtime's 64 accounts per CPI); 30 / 33 / 40 accounts sit on both sides of the 32 boundary
+        if mode == "wf" and rng.chance(1, 10):
+            n = rng.choice([30, 33, 40])
         p0 = pos[0]
         items = []
         for _ in range(n):
